@@ -40,6 +40,7 @@ class Run:
         self.t0 = time.time()
         self.obligations = []       # (rule, where, text, ok, nontrivial)
         self.findings = []
+        self.credits = {}
         self.analysed = {'functions': set(), 'rules': {}, 'notes': []}
         self.trusted = []
         self.assumptions = []
@@ -107,10 +108,17 @@ class Run:
             if i not in self.assumptions:
                 self.assumptions.append(i)
 
+    def credit(self, rule, n, why):
+        """The instance floor of a rule counts the instances of the form confirmed by hand on the pinned tree.  A part of the rule that
+        decided its functions in another (bounded, organisation-independent) form instead says so here, with the number of instances
+        the hand-confirmed form contributes: the floor then judges the other parts only."""
+        self.credits[rule] = self.credits.get(rule, 0) + n
+        self.infos.append('%s: instance floor credited with %d: %s' % (rule, n, why))
+
     def require_instances(self, rule, minimum):
         """A rule matching (almost) nothing must not pass vacuously: recorded as a deferred analysis
         error (exit 2 unless a definite finding is reported)."""
-        n = self.analysed['rules'].get(rule, {}).get('instances', 0)
+        n = self.analysed['rules'].get(rule, {}).get('instances', 0) + self.credits.get(rule, 0)
         if n < minimum and not self.errors:
             self.errors.append('rule %s matched %d instances, fewer than the %d confirmed by hand '
                                '(a rule matching nothing must not pass vacuously)' % (rule, n, minimum))
